@@ -109,6 +109,10 @@ def main(args):
             if os.path.exists(pp):
                 meta = json.load(open(os.path.join(sdir, d, 'meta.json'))) if os.path.exists(os.path.join(sdir, d, 'meta.json')) else {}
                 expect = {meta['property']: []} if 'property' in meta else {}
+                if meta.get('undetected'):
+                    # recorded as not reported by its property (DESIGN.md 13 / 14): run it, expect nothing
+                    cases.append(('break', 'seeded/' + d + ' (documented miss)', pp, {}, [meta['property']]))
+                    continue
                 cases.append(('break', 'seeded/' + d, pp, expect, ALL if allprops else sorted(expect) or ALL))
     if only:
         cases = [c for c in cases if only in c[1]]
